@@ -37,6 +37,10 @@ CONFIGS = [
      ["-enable-all", "-@hugeParam.sizeThreshold=8", "-@captLocal.paramsOnly=false", "-@ifElseChain.minThreshold=1"]),
     ("notests", ["-enableAll", "-checkTests=false"], ["-enable-all", "-test=false"]),
 ]
+PKGDEP = os.path.join(vlib.VERIF, "corpus", "rules", "pkgdep.go")
+# user rules whose filters depend on the package of the analysed file
+CONFIGS.insert(5, ("userrules", ["-enable=ruleguard,commentFormatting", "-disable=", "-@ruleguard.rules=" + PKGDEP],
+                   ["-enable=ruleguard,commentFormatting", "-disable=", "-@ruleguard.rules=" + PKGDEP]))
 
 
 def norm(lines, wdir):
@@ -54,8 +58,15 @@ def norm(lines, wdir):
 
 def make_shapes(ctx):
     """One module with: a plain package, one with in-package tests, one with external tests, one with both."""
-    w = wsmod.make(ctx, "ws_c08", 4, adv=("imports", "noimports", "gated", "onlyclause"))
+    w = wsmod.make(ctx, "ws_c08", 4, adv=("imports", "noimports", "gated", "onlyclause"), dsl=True)
     d = w["dir"]
+    # files without any declaration still carry comments that checkers report
+    open(os.path.join(d, "p0", "doc.go"), "w").write("//Package p0 has a doc comment without a space after the slashes.\npackage p0\n")
+    open(os.path.join(d, "p2", "zz_doc.go"), "w").write("/*\nPackage p2 is documented in a block comment.\n*/\n\n//TODO\npackage p2\n")
+    for k in range(4):
+        # a self-assignment and a sloppy length test in every package (subjects of the package-dependent user rules)
+        open(os.path.join(d, "p%d" % k, "zz_subjects.go"), "w").write(
+            "package p%d\n\nfunc zzSubjects(xs []int, x int) (int, bool) {\n\tx = x + 1\n\tx = x * 2\n\treturn x, len(xs) >= 0\n}\n" % k)
     intest = "package p1\n\nimport \"testing\"\n\nfunc TestIn(t *testing.T) {\n\tx := 1\n\tx = x + 1\n\t_ = x\n\tvar xs []int\n\tif len(xs) >= 0 {\n\t\tt.Log(\"always\")\n\t}\n}\n"
     open(os.path.join(d, "p1", "in_test.go"), "w").write(intest)
     ext = "package p2_test\n\nimport \"testing\"\n\nfunc TestExt(t *testing.T) {\n\ty := 2\n\ty = y * 2\n\t_ = y\n}\n"
@@ -104,7 +115,7 @@ def run(ctx):
                      % (fe, len(names), len(full), missing[:8], extra[:8]), {"frontend": fe, "missing": missing, "extra": extra})
 
     # diagnostics equality
-    cfgs = CONFIGS if thorough else CONFIGS[:6]
+    cfgs = CONFIGS if thorough else CONFIGS[:7]
     compared = 0
     total = 0
     samples = []
@@ -122,6 +133,11 @@ def run(ctx):
         total += len(base)
         if not base and name != "notests":
             raise vlib.Infra("no diagnostics for configuration %s" % name)
+        if name == "userrules":
+            allfe = [l for fe in res for l in res[fe]]
+            pk = {m.group(1) for l in allfe for m in [re.search(r"/(p\d)/[^/]+: ruleguard: pkgdep", l)] if m}
+            if len(pk) < 3 or not any("commentFormatting" in l and "doc.go" in l for l in allfe):
+                raise vlib.Infra("the package-dependent user rules / declaration-less files are not exercised (packages with pkgdep lines: %s)" % sorted(pk))
         if len(samples) < 3 and base:
             samples.append({"config": name, "line": base[0]})
         dup = sorted(set(l for l in base if base.count(l) > 1))
